@@ -41,10 +41,9 @@ JudgeCtx(o) ==
        /\ Chk((o.eq_ss => o.hash_ss) /\ (o.eq_fresh => o.hash_fresh), o.tid, "viol:EqualImpliesHashEqual")
        /\ Chk(Set(o.tv_a) = FreeVars(a) /\ Set(o.tv_s) = FreeVars(o.s_a), o.tid,
               IF /\ Set(o.tv_a) = ImplWalkVars(a) /\ Set(o.tv_s) = ImplWalkVars(o.s_a)
-                 /\ (Set(o.tv_a) # FreeVars(a) => (Dev_UnpackedNotWalked(a) \/ Dev_ExtraKeysNotWalked(a)))
-                 /\ (Set(o.tv_s) # FreeVars(o.s_a) => (Dev_UnpackedNotWalked(o.s_a) \/ Dev_ExtraKeysNotWalked(o.s_a)))
-              THEN (IF Dev_UnpackedNotWalked(a) \/ Dev_UnpackedNotWalked(o.s_a) THEN "dev:unpacked-value-not-walked"
-                    ELSE "dev:typeddict-extra-keys-not-walked")
+                 /\ (Set(o.tv_a) # FreeVars(a) => Dev_UnpackedNotWalked(a))
+                 /\ (Set(o.tv_s) # FreeVars(o.s_a) => Dev_UnpackedNotWalked(o.s_a))
+              THEN "dev:unpacked-value-not-walked"
               ELSE "viol:ExtractTypevarsAgrees")
 
 JudgePair(o) ==
